@@ -19,7 +19,7 @@ def jobs(tier):
 
 META = {
     "trusted_base": B.BASIC_TRUSTED,
-    "assumptions": ["indentation monitor takes the weaker reading where the statement is silent (DESIGN.md C03)"],
+    "assumptions": ["input files of at most 16 MiB", "indentation monitor takes the weaker reading where the statement is silent (DESIGN.md C03)"],
     "outside": ["equality of what the OS delivers through a file and through standard input (C03 last clause): both reach decode_file(dec, name, FILE*)"],
     "explanation": "L1 table lemma (real build_mapping vs spec table), L2 line lemmas (print_target_line_number, count, handle_token, decode_line vs the line monitor), L3 framing lemma (program decoders vs the framing automaton, decode_line replaced by its contract), decode_file picks the decoder by dialect",
 }
